@@ -13,8 +13,13 @@ import argparse, collections, hashlib, json, os, re, subprocess, sys, time, fcnt
 
 ROOT = os.path.dirname(os.path.abspath(__file__))
 LEAN = os.path.join(ROOT, "lean")
-HARN = os.path.join(ROOT, "harness")
-OUT = os.path.join(ROOT, "out")
+# VERIF_SCRATCH / VERIF_HARNESS are set only by tools/mutcheck.py (isolated mutation self-tests):
+# outputs go to the scratch dir and the harness copy there path-depends on a scratch copy of /repo.
+SCRATCH = os.environ.get("VERIF_SCRATCH")
+HARN = os.environ.get("VERIF_HARNESS", os.path.join(ROOT, "harness"))
+TARGET = os.environ.get("VERIF_TARGET", os.path.join(HARN, "target"))
+OUTROOT = SCRATCH or ROOT
+OUT = os.path.join(OUTROOT, "out")
 ALLOWED_AXIOMS = {"propext", "Classical.choice", "Quot.sound"}
 FORBIDDEN = re.compile(r"\b(sorry|admit|native_decide|implemented_by|unsafe|bv_decide)\b|^\s*axiom\s|maxHeartbeats\s+0", re.M)
 
@@ -59,9 +64,12 @@ def lean_obligations(cfg, log):
     """returns dict(ok, theorems={name: [axioms]}, bad=[…], build_log)"""
     pid = cfg["id"]
     with Lock("lake"):
-        r = sh([sys.executable, os.path.join(ROOT, "tools", "gen_consts.py")])
-        log.append("gen_consts: " + (r.stdout or "").strip()[-2000:])
-        gen_ok = r.returncode == 0
+        if SCRATCH and not os.environ.get("VERIF_MUT_CONSTS"):
+            gen_ok = True  # isolated mutation run: the shared Gen/Consts.lean is left alone
+        else:
+            r = sh([sys.executable, os.path.join(ROOT, "tools", "gen_consts.py")])
+            log.append("gen_consts: " + (r.stdout or "").strip()[-2000:])
+            gen_ok = r.returncode == 0
         sh([sys.executable, os.path.join(ROOT, "tools", "gen_lake.py")])
         mods = cfg.get("lean_props", [f"Libp2pModel.Props.{pid}"])
         t0 = time.time()
@@ -137,7 +145,7 @@ def run_pair(cfg, seed, tier, outdir, tag, count=None, replay=None, timeout=None
     os.makedirs(outdir, exist_ok=True)
     hpath = os.path.join(outdir, f"{tag}.harness.txt")
     dpath = os.path.join(outdir, f"{tag}.driver.txt")
-    cmd = [os.path.join(HARN, "target", "debug", cfg["harness"]), pid, "--seed", str(seed), "--tier", tier]
+    cmd = [os.path.join(TARGET, "debug", cfg["harness"]), pid, "--seed", str(seed), "--tier", tier]
     if count:
         cmd += ["--count", str(count)]
     if replay:
@@ -242,8 +250,8 @@ def fail_key(spec):
 
 
 def write_replay(pid, seed, tier, case, step, kind, detail, theorem=None, extra=None):
-    os.makedirs(os.path.join(ROOT, "replays"), exist_ok=True)
-    base = os.path.join(ROOT, "replays", f"{pid}-{seed}-{case.idx if case else 'obligation'}")
+    os.makedirs(os.path.join(OUTROOT, "replays"), exist_ok=True)
+    base = os.path.join(OUTROOT, "replays", f"{pid}-{seed}-{case.idx if case else 'obligation'}")
     if case is not None:
         with open(base + ".case", "w") as f:
             f.write("\n".join(case.lines()) + "\n")
@@ -257,7 +265,7 @@ def write_replay(pid, seed, tier, case, step, kind, detail, theorem=None, extra=
         doc.update(extra)
     with open(base + ".json", "w") as f:
         json.dump(doc, f, indent=1)
-    return os.path.relpath(base + ".json", ROOT)
+    return os.path.relpath(base + ".json", OUTROOT)
 
 
 def shrink(cfg, case, pred, seed, tier, outdir, budget_s):
@@ -329,7 +337,7 @@ def main():
     log = []
     outdir = os.path.join(OUT, pid)
     os.makedirs(outdir, exist_ok=True)
-    evid_path = os.path.join(ROOT, "evidence", pid + ".json")
+    evid_path = os.path.join(OUTROOT, "evidence", pid + ".json")
     os.makedirs(os.path.dirname(evid_path), exist_ok=True)
     known = known_findings(pid)
     known_keys = {e["key"] for e in known if e.get("status") == "known"}
